@@ -86,3 +86,46 @@ def arm_feasible_avoid(unit, cps):
 
 def fmt_blocks(bi, blocks):
     return ["bb%d %s" % (b, bi.body.term(b).get("sp", "")) for b in blocks]
+
+
+def all_ready_tests(M, bi, state_field="state"):
+    """Tests "every slot state is Ready" in their spellings: `state.iter().all(|s| s.is_ready())` (true
+    edge = all ready) and `!state.iter().any(|s| !s.is_ready())` (false edge of the `any` = all ready).
+    Returns [(site, edges_all_ready, edges_not_all_ready, whole_table, predicate_ok)]."""
+    from . import flow
+    out = []
+    for s in bi.sites:
+        if s.callee.name not in ("all", "any") or s.callee.indirect:
+            continue
+        it, cl = s.arg(0), s.arg(1)
+        full = it is not None and it[0] == "call" and it[1][1] in ("iter", "iter_mut") and it[2] and it[2][0] == scan.self_field(state_field)
+        pred = None      # True: closure says "is ready"; False: closure says "is not ready"
+        if cl is not None and cl[0] == "agg" and isinstance(cl[1], tuple) and cl[1][0] == "closure":
+            cb = M.by_cdef.get(cl[1][1])
+            if cb is not None:
+                ci = M.info(cb)
+                calls = [x for x in ci.sites if x.callee.owner == "PollState"]
+                rets = flow.returned_values(ci)
+                if len(calls) == 1 and calls[0].callee.name == "is_ready" and len(rets) == 1:
+                    t = rets[0][3]
+                    if t[0] == "call" and t[3] == calls[0].block:
+                        pred = True
+                    elif t[0] == "unop" and t[1] == "Not" and t[2][0] == "call" and t[2][3] == calls[0].block:
+                        pred = False
+        te = bi.outcome_edges(s, True)
+        fe = bi.outcome_edges(s, False)
+        for e in bi.phi_tests_fed_by(s):
+            for lab, acc in ((True, te), (False, fe)):
+                ed = bi.edge(e, lab)
+                if ed:
+                    acc.append(ed)
+        for e in bi.phi_tests_fed_by_not(s):
+            for lab, acc in ((True, fe), (False, te)):
+                ed = bi.edge(e, lab)
+                if ed:
+                    acc.append(ed)
+        if s.callee.name == "all":
+            out.append((s, te, fe, full, pred is True))
+        else:
+            out.append((s, fe, te, full, pred is False))
+    return out
